@@ -2,6 +2,13 @@
 
 package lua
 
+import (
+	"context"
+	"errors"
+	"strings"
+	"time"
+)
+
 // C05/C11.inject — a context cancelled at poll k (every k) stops the script with an error; the
 // protected call boundary restores the caller's stack.
 //
@@ -32,5 +39,127 @@ func H_C11_inject() {
 		VAssert(L.Get(-2) == LTrue, "inject: completes normally when not cancelled")
 		VAssert(sameValue(L.Get(-1), LNumber(a+1+1+1)), "inject: result unchanged by the attached context")
 	}
+	VReach("end")
+}
+
+// tickCtx is done once the script has called the host function tick() k times: cancellation is
+// injected at every point of the script's progress, independent of how often the VM polls.
+type tickCtx struct {
+	context.Context
+	ticks  int
+	k      int
+	polls  int
+	open   chan struct{}
+	closed chan struct{}
+}
+
+func newTickCtx(k int) *tickCtx {
+	c := &tickCtx{k: k, open: make(chan struct{}), closed: make(chan struct{})}
+	close(c.closed)
+	return c
+}
+func (c *tickCtx) fired() bool { return c.ticks >= c.k }
+func (c *tickCtx) Done() <-chan struct{} {
+	c.polls++
+	if c.fired() {
+		return c.closed
+	}
+	return c.open
+}
+var errCanceled = errors.New("context canceled")
+
+func (c *tickCtx) Err() error {
+	if c.fired() {
+		return errCanceled
+	}
+	return nil
+}
+func (c *tickCtx) Deadline() (time.Time, bool)       { return time.Time{}, false }
+func (c *tickCtx) Value(key interface{}) interface{} { return nil }
+
+// childCtx is the documented contract of context.WithCancel: done iff the parent is done or the
+// cancel function was called.
+type childCtx struct {
+	parent    context.Context
+	cancelled bool
+	closed    chan struct{}
+}
+
+func (c *childCtx) Done() <-chan struct{} {
+	if c.cancelled {
+		return c.closed
+	}
+	return c.parent.Done()
+}
+func (c *childCtx) Err() error {
+	if c.cancelled {
+		return errCanceled
+	}
+	return c.parent.Err()
+}
+func (c *childCtx) Deadline() (time.Time, bool)       { return time.Time{}, false }
+func (c *childCtx) Value(key interface{}) interface{} { return nil }
+
+//verif:stub context.WithCancel
+func stubWithCancel(parent context.Context) (context.Context, context.CancelFunc) {
+	c := &childCtx{parent: parent, closed: make(chan struct{})}
+	close(c.closed)
+	return c, func() { c.cancelled = true }
+}
+
+var c11Programs = []string{
+	`while true do tick() end`,
+	`local function rec(n) tick(); if n > 6 then return n end; return rec(n + 1) + 0 end; while true do rec(0) end`,
+	`local function loop() tick(); return loop() end; loop()`,
+	`::top:: tick(); goto top`,
+	`while true do pcall(function() while true do tick() end end) end`,
+	`local function work() tick(); error('again') end; while true do xpcall(work, function(m) for i = 1, 3 do tick() end; return m end) end`,
+	`local t = setmetatable({}, {__index = function(t, k) tick(); return t[k + 1] end}); while true do pcall(function() return t[1] end) end`,
+	`local co = coroutine.wrap(function() while true do tick(); coroutine.yield() end end); while true do tick(); co() end`,
+	`local outer = coroutine.wrap(function() local inner = coroutine.wrap(function() while true do tick() end end); inner() end); outer()`,
+	`local outer = coroutine.create(function() local inner = coroutine.create(function() while true do tick(); coroutine.yield() end end); while true do tick(); coroutine.resume(inner) end end); while true do coroutine.resume(outer) end`,
+	`for i = 1, 1e9 do tick() end`,
+	`repeat local t = {}; for j = 1, 2 do t[j] = tostring(j); tick() end until false`,
+}
+
+// C11.stop — once the context is done no further progress is made: every non-terminating template,
+// cancellation injected after every number k of progress steps.
+//
+//verif:harness prop=C11 tier=quick nonative qparams=K:12 tparams=K:40 bounds="12 non-terminating templates (tight loop, recursion, tail calls, goto, pcall/xpcall retry loops with Lua handlers, metamethod recursion, coroutine ping-pong, nested and handle-resumed coroutines); context done after k progress steps, k symbolic in [0, K] (K=12 quick / 40 thorough); context attached to the main state or to a non-main thread driven by Resume; context.WithCancel replaced by its contract stub"
+//verif:assume context.WithCancel(parent) is replaced by a stub: the child is done iff the parent is done or its cancel function was called
+func H_C11_stop() {
+	prog := c11Programs[VChoice(len(c11Programs))]
+	onThread := VChoice(2) == 1
+	K := VParam("K", 12)
+	k := int(VByte("k"))
+	VAssume(k <= K)
+	ctx := newTickCtx(k)
+	L := newL(Options{CallStackSize: 64}, BaseLibName, CoroutineLibName)
+	const slack = 3 // progress steps tolerated after the context is done: bounded by the call depth at the moment of firing
+	tick := L.NewFunction(func(L *LState) int {
+		ctx.ticks++
+		VAssert(ctx.ticks <= k+slack, "stop: the script makes no further progress once the context is done: "+prog)
+		return 0
+	})
+	L.G.Global.RawSetString("tick", tick)
+	fn, err := L.LoadString(prog)
+	VAssert(err == nil, "stop: loads")
+	if !onThread {
+		L.SetContext(ctx)
+		L.Push(fn)
+		err = L.PCall(0, 0, nil)
+		VAssert(err != nil, "stop: the running call returns an error")
+	} else {
+		co, _ := L.NewThread()
+		co.SetContext(ctx)
+		st, rerr, _ := L.Resume(co, fn)
+		for i := 0; st == ResumeYield && i < 50; i++ {
+			st, rerr, _ = L.Resume(co, fn)
+		}
+		VAssert(st == ResumeError && rerr != nil, "stop: Resume on the thread that carries the context returns an error")
+		err = rerr
+	}
+	VAssert(ctx.fired(), "stop: the template only ends by cancellation")
+	VAssert(err != nil && strings.Contains(err.Error(), "context canceled"), "stop: the error carries the context's reason")
 	VReach("end")
 }
